@@ -937,6 +937,18 @@ func valuesInRemovalOrder(c *Ctx, ct *types.Named, fn *ssa.Function, popEnd stri
 			}
 		}
 	}
+	// form B': dst := make([]T, S, _); copy(dst, list.Values()); slices.Reverse(dst); return dst
+	if len(gc.GCs) == 1 {
+		g := gc.GCs[0]
+		if len(g.Guards) == 0 && len(g.Effects) == 2 && g.Effects[0].Op == "builtin" && g.Effects[0].Leaf == "copy" && len(g.Effects[0].Args) == 2 &&
+			g.Effects[1].Op == "stddo" && g.Effects[1].Leaf == "slices.Reverse" && len(g.Effects[1].Args) >= 1 && g.Exit.Op == "return" && len(g.Exit.Args) == 1 {
+			dst, src := g.Effects[0].Args[0], g.Effects[0].Args[1]
+			if dst.Op == "makeslice" && len(dst.Args) == 2 && isListValues(src) && ev(dst.Args[0]).String() == linAtom("S").String() &&
+				noEpoch(g.Effects[1].Args[len(g.Effects[1].Args)-1]) == noEpoch(dst) && noEpoch(g.Exit.Args[0]) == noEpoch(dst) {
+				return Discharged, "a fresh slice of length Size() filled with the inner list's Values() and reversed"
+			}
+		}
+	}
 	if st, why, ok := inPlaceReversal(gc, isListValues, ev); ok {
 		return st, why
 	}
